@@ -37,6 +37,9 @@ pub struct ImplAnswer { pub found: Result<Vec<(usize, ACoord, u8)>, String>, pub
 
 /// serve the universe as XML and ask the crate
 pub fn ask_impl(u: &Universe, budget: usize) -> Result<ImplAnswer> {
+	// the crate walks parents, imports and dependencies recursively with no limiter of its own: should it ever kill the
+	// process (stack overflow, endless loop past the download budget), `check` reports this universe as the failing input
+	fbh::report::crumb(&format!("property C19 (get_maven_dependencies did not return: crash, stack overflow or endless loop; download budget {budget})\n{}", u.replay()));
 	let mut map = HashMap::new();
 	let mut tie_notes = vec![];
 	let mut broken_document_parses = None;
@@ -479,6 +482,160 @@ pub fn type_pair_cases(r: &mut Report) -> Result<()> {
 	Ok(())
 }
 
+/// "managed versions and scopes fill in omitted ones": every subset of {version, scope, optional} DECLARED on the
+/// dependency x every state of the management (no entry; an entry — own, inherited from the parent, or imported from a
+/// BOM — that fixes the version and every subset of {scope, optional}) x value sets in which filling in / not filling in
+/// each field is visible in the answer (which version and subtree, which scope, listed or cut), plus the same with a
+/// typed dependency whose classifier is the type's default on one side and explicit on the other.
+/// Judged field by field against the rule itself (declared wins, else managed, else default), and by the reference resolver.
+pub fn fill_in_cases(r: &mut Report) -> Result<()> {
+	const WHERE: [&str; 4] = ["no managed entry", "own dependencyManagement", "the parent's dependencyManagement", "an imported BOM"];
+	for k in 0..3usize {
+		let (dscope, mscope, dopt, mopt) = match k { 1 => (1u8, 2u8, true, false), _ => (0u8, 1u8, false, true) };
+		for wh in 0..4usize {
+			if k == 2 && wh > 1 { continue; }
+			for m_mask in 0..4usize { // bit 0: the managed entry fixes a scope, bit 1: it fixes optional
+				if wh == 0 && m_mask != 0 { continue; }
+				for d_mask in 0..8usize { // bit 0: version declared, bit 1: scope declared, bit 2: optional declared
+					let mut x = dep("g", "x", if d_mask & 1 != 0 { Some("1") } else { None });
+					if d_mask & 2 != 0 { x.scope = Some(dscope); }
+					if d_mask & 4 != 0 { x.optional = Some(dopt); }
+					let mut m = dep("g", "x", Some("2"));
+					if m_mask & 1 != 0 { m.scope = Some(mscope); }
+					if m_mask & 2 != 0 { m.optional = Some(mopt); }
+					if k == 2 { x.type_ = Some("test-jar".into()); m.type_ = Some("test-jar".into()); m.classifier = Some("tests".into()); }
+					let mut a = pom("g", "a", "1");
+					let mut extra: Vec<APom> = vec![];
+					match wh {
+						0 => {}
+						1 => a.dm.push(m),
+						2 => { let mut p = pom("g", "par", "1"); p.packaging = Some("pom".into()); p.dm.push(m); extra.push(p); a.parent = Some(("g".into(), "par".into(), "1".into())); }
+						_ => {
+							let mut p = pom("g", "bom", "1"); p.packaging = Some("pom".into()); p.dm.push(m); extra.push(p);
+							let mut i = dep("g", "bom", Some("1")); i.type_ = Some("pom".into()); i.scope = Some(IMPORT); a.dm.push(i);
+						}
+					}
+					a.deps.push(x);
+					let mut x1 = pom("g", "x", "1"); x1.deps = vec![dep("g", "under1", Some("1"))];
+					let mut x2 = pom("g", "x", "2"); x2.deps = vec![dep("g", "under2", Some("1"))];
+					let mut files = vec![a, x1, x2, pom("g", "under1", "1"), pom("g", "under2", "1")]; files.extend(extra);
+					let u = Universe::new(one_repo(files), vec![(coord("g", "a", "1"), 0)]);
+					let ans = ask_impl(&u, 10_000)?;
+					if absorb(r, &ans) { continue; }
+					// the rule, field by field
+					let managed = wh != 0;
+					let eff_v: Option<&str> = if d_mask & 1 != 0 { Some("1") } else if managed { Some("2") } else { None };
+					let eff_s: u8 = if d_mask & 2 != 0 { dscope } else if managed && m_mask & 1 != 0 { mscope } else { 0 };
+					let eff_o: bool = if d_mask & 4 != 0 { dopt } else if managed && m_mask & 2 != 0 { mopt } else { false };
+					let want: Result<Vec<(usize, ACoord, u8)>, ()> = match eff_v {
+						None => Err(()),
+						Some(v) => {
+							let mut l = vec![(0usize, coord("g", "a", "1"), 0u8)];
+							if !eff_o { if let Some(s) = reference::doc_scope_table(0, eff_s) {
+								let mut cx = coord("g", "x", v);
+								if k == 2 { cx.type_ = "test-jar".into(); cx.classifier = Some("tests".into()); }
+								l.push((0, cx, s));
+								l.push((0, coord("g", &format!("under{v}"), "1"), s));
+							} }
+							Ok(l)
+						}
+					};
+					let what = format!("managed fill-in (declared: {}{}{}; managed by {}: version{}{})",
+						if d_mask & 1 != 0 { "version " } else { "" }, if d_mask & 2 != 0 { "scope " } else { "" }, if d_mask & 4 != 0 { "optional" } else { "" },
+						WHERE[wh], if managed && m_mask & 1 != 0 { " scope" } else { "" }, if managed && m_mask & 2 != 0 { " optional" } else { "" });
+					let got = ans.found.clone().map_err(|_| ());
+					if got != want {
+						r.violation(format!("{what}: each of version, scope and optional must be the declared value, else the managed one, else the default — get_maven_dependencies answers otherwise"),
+							format!("property C19 ({what})\n{}crate answered:\n{}\nthe rule gives (version {:?}, scope {}, optional {}):\n{}\n", u.replay(),
+								ans.found.as_ref().map_or_else(|e| e.clone(), |v| show_found(&u, v)), eff_v, SCOPES[eff_s as usize], eff_o, want.as_ref().map_or("Err".into(), |v| show_found(&u, v))));
+					}
+					let nt = oracle(r, &u, &ans, &what);
+					r.eval(&format!("fill {k} {wh} {m_mask} {d_mask}"), nt);
+					r.count("fill_in_matrix_universes");
+					r.count(&format!("fill_in_declared_{}{}{}", if d_mask & 1 != 0 { "v" } else { "-" }, if d_mask & 2 != 0 { "s" } else { "-" }, if d_mask & 4 != 0 { "o" } else { "-" }));
+					r.case("fill-in-matrix", case_text(&u, &ans));
+				}
+			}
+		}
+	}
+	Ok(())
+}
+
+/// Cyclic universes (outside the property's quantifier; compared with the model only, which runs out of fuel): the
+/// crate has no recursion limiter, so every cycle that is actually walked ends only at the Downloader's budget. Cycles
+/// through dependencies, parents and imports, of length 1 and 2 — and cycles that close only through an edge that is
+/// cut before resolution (optional / non-transitive scope), which are harmless and must resolve.
+pub fn cyclic_cases(r: &mut Report) -> Result<()> {
+	let with = |p: APom, ds: Vec<ADep>| { let mut p = p; p.deps = ds; p };
+	let ppom = |a: &str, parent: &str| { let mut p = pom("g", a, "1"); p.packaging = Some("pom".into()); p.parent = Some(("g".into(), parent.into(), "1".into())); p };
+	let imp = |a: &str| { let mut d = dep("g", a, Some("1")); d.type_ = Some("pom".into()); d.scope = Some(IMPORT); d };
+	let ipom = |a: &str, target: &str| { let mut p = pom("g", a, "1"); p.packaging = Some("pom".into()); p.dm = vec![imp(target)]; p };
+	let cut = |a: &str, how: usize| { let mut d = dep("g", a, Some("1")); match how { 0 => d.optional = Some(true), 1 => d.scope = Some(2), _ => d.scope = Some(4) }; d };
+	let mut us: Vec<(&str, bool, Universe)> = vec![
+		("a POM depending on itself", true, Universe::new(one_repo(vec![with(pom("g", "a", "1"), vec![dep("g", "a", Some("1"))])]), vec![(coord("g", "a", "1"), 0)])),
+		("a -> b -> a", true, Universe::new(one_repo(vec![with(pom("g", "a", "1"), vec![dep("g", "b", Some("1"))]), with(pom("g", "b", "1"), vec![dep("g", "a", Some("1"))])]), vec![(coord("g", "a", "1"), 1)])),
+		("a -> b -> c -> a below an acyclic first root", true, Universe::new(one_repo(vec![pom("g", "z", "1"), with(pom("g", "a", "1"), vec![dep("g", "b", Some("1"))]), with(pom("g", "b", "1"), vec![dep("g", "z", Some("1")), dep("g", "c", Some("1"))]), with(pom("g", "c", "1"), vec![dep("g", "a", Some("1"))])]), vec![(coord("g", "z", "1"), 0), (coord("g", "a", "1"), 0)])),
+		("a POM that is its own parent", true, Universe::new(one_repo(vec![ppom("a", "a")]), vec![(coord("g", "a", "1"), 0)])),
+		("parents a <- b <- a", true, Universe::new(one_repo(vec![ppom("a", "b"), ppom("b", "a")]), vec![(coord("g", "a", "1"), 0)])),
+		("a POM importing itself", true, Universe::new(one_repo(vec![ipom("a", "a")]), vec![(coord("g", "a", "1"), 0)])),
+		("imports a -> b -> a", true, Universe::new(one_repo(vec![ipom("a", "b"), ipom("b", "a")]), vec![(coord("g", "a", "1"), 0)])),
+		("a dependency whose parent imports the dependent", true, Universe::new(one_repo(vec![with(pom("g", "a", "1"), vec![dep("g", "b", Some("1"))]), { let mut b = pom("g", "b", "1"); b.parent = Some(("g".into(), "p".into(), "1".into())); b }, ipom("p", "a")]), vec![(coord("g", "a", "1"), 0)])),
+	];
+	for how in 0..3usize {
+		us.push(("a cycle closed only by an edge that is cut (self)", false, Universe::new(one_repo(vec![with(pom("g", "a", "1"), vec![cut("a", how)])]), vec![(coord("g", "a", "1"), 0)])));
+		us.push(("a cycle closed only by an edge that is cut (a -> b -/-> a)", false, Universe::new(one_repo(vec![with(pom("g", "a", "1"), vec![dep("g", "b", Some("1"))]), with(pom("g", "b", "1"), vec![cut("a", how)])]), vec![(coord("g", "a", "1"), 0)])));
+	}
+	for (what, walked, u) in us {
+		let ans = ask_impl(&u, 400)?;
+		if absorb(r, &ans) { continue; }
+		match (&ans.found, walked) {
+			(Err(e), true) if e.starts_with("PANIC") => r.violation(format!("cyclic universe ({what}): get_maven_dependencies panicked: {e}"), format!("property C19 (cyclic universe: {what})\n{}", u.replay())),
+			(Err(_), true) => { r.count(if ans.budget_hit { "cyclic_fixed_stopped_by_download_budget" } else { "cyclic_fixed_error_before_budget" }); }
+			(Ok(v), true) => { r.count("cyclic_fixed_resolved"); r.notes.push(format!("cyclic universe ({what}) resolved to {} entries", v.len())); }
+			(_, false) => {
+				// nothing is asked of a cut edge, so the cycle is never walked: inside the rules, judged by the oracle
+				let _ = oracle(r, &u, &ans, &format!("cycle behind a cut edge: {what}"));
+				r.count("cycle_behind_cut_edge_universes");
+			}
+		}
+		r.eval(&format!("cyclic {what} {}", u.g_files()), false);
+		r.count("cyclic_fixed_universes");
+		r.case("cyclic-fixed", case_text(&u, &ans));
+	}
+	Ok(())
+}
+
+/// small universes at the edges of the input space: no repositories, no roots, a root listed twice (same and different
+/// scope: the first occurrence wins), a root that is also a dependency of an earlier / later root, a repository list in
+/// which the first serving repository comes last
+pub fn edge_cases(r: &mut Report) -> Result<()> {
+	let with = |p: APom, ds: Vec<ADep>| { let mut p = p; p.deps = ds; p };
+	let files = vec![with(pom("g", "a", "1"), vec![dep("g", "b", Some("1"))]), with(pom("g", "b", "1"), vec![dep("g", "c", Some("1"))]), pom("g", "c", "1"), pom("g", "c", "2")];
+	let base = |roots: Vec<(ACoord, u8)>| Universe::new(one_repo(files.clone()), roots);
+	let mut us: Vec<(&str, Universe)> = vec![
+		("no roots", base(vec![])),
+		("no repositories, no roots", Universe::new(vec![], vec![])),
+		("no repositories, one root", Universe::new(vec![], vec![(coord("g", "a", "1"), 0)])),
+		("a root listed twice", base(vec![(coord("g", "a", "1"), 0), (coord("g", "a", "1"), 0)])),
+		("a root listed twice with different scopes", base(vec![(coord("g", "a", "1"), 1), (coord("g", "a", "1"), 0)])),
+		("a root that is a dependency of an earlier root", base(vec![(coord("g", "a", "1"), 0), (coord("g", "b", "1"), 2)])),
+		("a root that is a dependency of a later root", base(vec![(coord("g", "c", "2"), 4), (coord("g", "a", "1"), 0)])),
+		("another version of a deep dependency as a later root", base(vec![(coord("g", "a", "1"), 0), (coord("g", "c", "2"), 3)])),
+	];
+	let mut three = vec![Repo { name: "empty".into(), maven: "r://e".into(), files: vec![] }, Repo { name: "also empty".into(), maven: "r://e2/".into(), files: vec![] }];
+	three.extend(one_repo(files.clone()));
+	us.push(("the serving repository is the last of three", Universe::new(three, vec![(coord("g", "a", "1"), 0)])));
+	for (what, u) in us {
+		let ans = ask_impl(&u, 10_000)?;
+		if absorb(r, &ans) { continue; }
+		let nt = oracle(r, &u, &ans, what);
+		r.eval(&format!("edge {what}"), nt);
+		r.count("edge_case_universes");
+		r.case("edge-cases", case_text(&u, &ans));
+	}
+	Ok(())
+}
+
 // ---------- generator ----------
 #[derive(Clone, Copy, PartialEq, Debug)]
 pub enum Stream { Valid, Errors, ImportFirst, Redeclare, Cyclic, BrokenXml }
@@ -488,7 +645,8 @@ enum Kind { Jar, Parent, Bom }
 struct Lib { group: String, artifact: String, kind: Kind, versions: Vec<String> }
 
 const GROUPS: [&str; 5] = ["g", "org.ex", "com.ex.lib", "io", "ünï.cöde"];
-const VERSIONS: [&str; 8] = ["1", "1.0", "2.0", "2.1", "3.0-SNAPSHOT", "1.5-20230713.025619-3", "0.9-beta", "1.0-20230713.02561-3"];
+const VERSIONS: [&str; 14] = ["1", "1.0", "2.0", "2.1", "3.0-SNAPSHOT", "1.5-20230713.025619-3", "0.9-beta", "1.0-20230713.02561-3",
+	"1.0-20230713.025619-", "1-2-20230713.025619-77", "-20230713.025619-1", "1.0-\u{ff12}\u{ff10}230713.025619-1", "\u{4e00}.0", "1.0-20230713.025619-\u{0663}"];
 const TYPES: [(&str, Option<&str>); 16] = [("test-jar", None), ("jar", Some("sources")), ("javadoc", None), ("war", None), ("test-jar", Some("tests")), ("jar", Some("")), ("zip", Some("dist")),
 	("ejb", None), ("maven-plugin", None), ("bundle", None), ("java-source", None), ("ejb-client", None), ("jar", Some("client")), ("jar", Some("tests")), ("ejb", Some("client")), ("jar", Some("javadoc"))];
 
@@ -507,7 +665,7 @@ pub fn gen_universe(rng: &mut Rng, stream: Stream) -> Universe {
 		let nv = if kind == Kind::Jar { rng.range(1, 3) } else { rng.range(1, 2) };
 		let mut versions: Vec<String> = vec![];
 		while versions.len() < nv { let v = rng.pick(&VERSIONS).to_string(); if !versions.contains(&v) { versions.push(v); } }
-		libs.push(Lib { group: rng.pick(&GROUPS).to_string(), artifact: format!("{}{i}", rng.pick(&["a", "lib-", "x_"])), kind, versions });
+		libs.push(Lib { group: rng.pick(&GROUPS).to_string(), artifact: format!("{}{i}", rng.pick(&["a", "lib-", "x_", "\u{e4}", "\u{5e93}-", "\u{1f600}"])), kind, versions });
 	}
 	let nr = rng.range(1, 3);
 	let mut repos: Vec<Repo> = (0..nr).map(|i| Repo { name: format!("repo{i}"), maven: rng.pick(&["r://a", "r://b/", "https://m.ex/m2", "file:///m2/"]).to_string() + &format!("{i}") + if rng.chance(1, 3) { "/" } else { "" }, files: vec![] }).collect();
@@ -525,7 +683,7 @@ pub fn gen_universe(rng: &mut Rng, stream: Stream) -> Universe {
 			let mut rf = Ref::new(&u_so_far);
 			let l = &libs[i];
 			let mut p = APom { model_version: "4.0.0".into(), parent: None, group: Some(l.group.clone()), artifact: l.artifact.clone(), version: Some(l.versions[j].clone()),
-				packaging: match l.kind { Kind::Jar => match rng.below(10) { 0 => Some("jar".into()), 1 => Some("bundle".into()), 2 => Some("war".into()), _ => None }, _ => Some("pom".into()) },
+				packaging: match l.kind { Kind::Jar => match rng.below(10) { 0 => Some("jar".into()), 1 => Some("bundle".into()), 2 => Some("war".into()), 3 => Some("custom-pack".into()), 4 => Some("ejb".into()), _ => None }, _ => Some("pom".into()) },
 				dm: vec![], deps: vec![], dm_empty_element: rng.chance(1, 10), empty_lists: 0, xml_style: if rng.chance(1, 3) { rng.next() | 1 } else { 0 } };
 			let higher: Vec<usize> = ((i + 1)..nl).collect();
 			let pick_ver = |rng: &mut Rng, k: usize, libs: &Vec<Lib>| -> String { rng.pick(&libs[k].versions).clone() };
